@@ -50,7 +50,7 @@ SEARCH_S = {"quick": 40, "thorough": 200}
 
 
 def cases(rng, tier):
-    n = 220 if tier == "quick" else 5000
+    n = 380 if tier == "quick" else 5000
     for _ in range(n):
         yield ttlib.make_case_c05(rng)
 
